@@ -116,8 +116,14 @@ def gen_cases(ctx, n_ds, n_tf):
                pfreq=rng.choice([1, 1, 2]), sfreq=rng.choice([1, 1, 2]), graft=graft,
                nesterov=False if plain else bool(rng.below(2)), moving_avg=bool(rng.below(2)),
                rel_eps=bool(rng.below(4) != 0), eigh=bool(rng.below(2)))
+    comps = [[rng.choice(COMP_SHAPES), rng.rint(-6, 6)] for _ in range(rng.rint(1, 3))]
+    if i % 4 == 3 and b >= 3:
+      # the tensor's statistics are all smaller than the block size and a companion brings a larger
+      # statistic: with the companion the tensor's statistics are padded (identity block, masked by
+      # padding_start), alone they are not
+      shape = rng.choice([[2], [2, 2]] if b == 3 else [[2], [3], [2, 3], [3, 3], [2, 2], [3, 2, 2]])
+      comps[0] = [rng.choice([[b], [b, 2], [2, b]]), rng.rint(-3, 3)]
     nb = n_blocks_ds(shape, b)
-    ncomp = rng.rint(1, 3)
     strict = (i % 6 == 0)
     if strict:
       cfg["sfreq"] = 1     # under efficient_cond the statistics are computed inside a compiled while body
@@ -125,8 +131,7 @@ def gen_cases(ctx, n_ds, n_tf):
                       eager=strict,
                       hist=rng.choice(["normal", "normal", "int"]),
                       scales=[rng.rint(-6, 6) for _ in range(nb)] if i % 5 else [0] * nb,
-                      companions=[[rng.choice(COMP_SHAPES), rng.rint(-6, 6)] for _ in range(ncomp)],
-                      seed=rng.next()))
+                      companions=comps, seed=rng.next()))
   tf_shapes = {2: [[4], [4, 2], [2, 4], [4, 4], [6, 2], [8, 2], [2, 6]],
                3: [[6], [6, 3], [3, 6], [6, 6], [6, 2], [2, 9], [9, 3]],
                4: [[8], [8, 4], [4, 8], [8, 3], [3, 8, 2], [8, 8], [12, 2]]}
@@ -216,6 +221,10 @@ def report(ctx, results):
       ctx.count("ds/ragged=%s" % any(d % c["block"] for d in case["shape"] if d > c["block"]))
     ctx.count("steps", len(r["steps"]))
     ctx.count("companions", len(case["companions"]))
+    if case["kind"] == "ds":
+      own = max(min(d, c["block"]) for d in case["shape"])
+      big = max([min(d, c["block"]) for cs, _ in case["companions"] for d in cs] + [0])
+      ctx.count("ds/companion_enlarges_padded_size=%s" % (big > own))
     nbw = list(r["nonbitwise"])
     ctx.count("steps_with_unverified_conditioning_bound(unbounded slack)", nbw[2] // 1000000)
     nbw[2] %= 1000000
@@ -247,6 +256,8 @@ RULE = (
     "x eigh / Newton roots x relative / absolute ridge x decay, momentum, weight decay, frequencies; "
     "Tearfree Shampoo (grafting NONE): block_size 2..4 x divisible dims, 1 or 2 blocked axes; both: "
     "per-block gradient scales 10^-6..10^6 (every fifth case unscaled), 1-3 companion leaves of arbitrary "
+    "(every fourth Distributed Shampoo case: tensor smaller than the block size next to a companion with a "
+    "larger statistic, so that only the run with companions pads the tensor's statistics) "
     "shape / scale 10^-6..10^6 / value, histories of 1-5 steps; one evaluation = one case (all steps, three "
     "trees); non-trivial when the tensor has more than one block")
 
